@@ -392,7 +392,7 @@ func (c *child) runFault(d caseDesc) caseResult {
 		}
 	}
 	// a request that survives the injected panic ends by the server's own 3 s deadlines
-	st := step{rpc: rpc, wire: finishWire(m, nil), heavy: true, limit: 8 * time.Second}
+	st := step{rpc: rpc, wire: finishWire(m, nil), heavy: true, limit: 5 * time.Second}
 	fs.ds.arm(faultMethods[p.method], p.k, p.kind)
 	sub := &child{ts: fs.ts, fx: fs.fx, httpc: c.httpc}
 	o := sub.send(st)
@@ -404,7 +404,7 @@ func (c *child) runFault(d caseDesc) caseResult {
 	time.Sleep(20 * time.Millisecond)
 	alive := 0
 	_, pm := faultRequest(fs.fx, "Check", rec.NewRand(1))
-	po := sub.send(step{rpc: rpcByName("Check"), wire: finishWire(pm, nil), limit: 8 * time.Second})
+	po := sub.send(step{rpc: rpcByName("Check"), wire: finishWire(pm, nil), limit: 5 * time.Second})
 	if po.class != clTransport && po.class != clOverrun && po.class != clDeadline {
 		alive = 1
 	}
